@@ -344,7 +344,7 @@ std::string diff_geometry(const PointCloud &dec, Carrier c) {
 struct Outcome {
   bool encode_ok = false;
   bool decode_ok = false;
-  std::string decode_msg, tree_diff, geom_diff;
+  std::string decode_msg, tree_diff, geom_diff, reuse_diff;
   uint64_t stream_hash = 0;
   size_t stream_size = 0;
 };
@@ -433,6 +433,23 @@ Outcome run_carrier(const RMeta &m, Carrier c, mc::Ctx &ctx, std::string *intern
   o.decode_ok = true;
   o.tree_diff = diff_meta(out->GetMetadata(), m);
   o.geom_diff = diff_geometry(*out, c);
+  // History of depth 2 on the output side: the same stream decoded by DecodeBufferToGeometry into
+  // an object that already holds a geometry whose attribute unique ids and attribute metadata
+  // blocks collide with the stream's (pass 0: a fresh object, passes 1 and 2: the object the
+  // previous pass filled). The metadata tree after each pass must be the tree that was attached.
+  {
+    std::unique_ptr<PointCloud> used(mesh ? new Mesh() : new PointCloud());
+    for (int pass = 0; pass < 3 && o.reuse_diff.empty(); ++pass) {
+      DecoderBuffer db2;
+      db2.Init(eb.data(), eb.size());
+      Decoder dec2;
+      const Status s2 = mesh ? dec2.DecodeBufferToGeometry(&db2, static_cast<Mesh *>(used.get())) : dec2.DecodeBufferToGeometry(&db2, used.get());
+      if (!s2.ok()) { o.reuse_diff = "pass " + std::to_string(pass) + ": decode into a used object failed: " + s2.error_msg_string(); break; }
+      std::string d = diff_meta(used->GetMetadata(), m);
+      if (d.empty()) d = diff_geometry(*used, c);
+      if (!d.empty()) o.reuse_diff = "pass " + std::to_string(pass) + ": " + d;
+    }
+  }
   return o;
 }
 
@@ -480,6 +497,12 @@ void check(const RMeta &m, mc::Ctx &ctx) {
     if (!o.geom_diff.empty()) {
       ctx.fail("meta|" + ks + "|geometry-differs", show(m) + " :: " + cn + ": " + o.geom_diff);
       all_ok = false;
+    }
+    if (!o.reuse_diff.empty()) {
+      ctx.fail("meta|" + ks + "|differs-when-decoded-into-used-object", show(m) + " :: " + cn + ": " + o.reuse_diff);
+      all_ok = false;
+    } else if (c != STANDALONE) {
+      ctx.count("decoded_into_used_object_equal:" + cn);
     }
     if (o.tree_diff.empty() && o.geom_diff.empty()) {
       ctx.count("roundtrip_equal:" + cn);
